@@ -66,35 +66,29 @@ ENUM_FILES = {
 def rust_enum_variants(path, name):
     """variants of `pub enum <name>` read from the Rust source (comments and attributes skipped)"""
     src = open(os.path.join(REPO, path), errors="replace").read()
-    m = re.search(r"pub enum %s\b[^{]*\{" % re.escape(name), src)
+    src = re.sub(r"/\*.*?\*/", " ", src, flags=re.S)
+    src = re.sub(r"//[^\n]*", " ", src)
+    m = re.search(r"pub enum %s\b[^{;]*\{" % re.escape(name), src)
     if not m:
         return None
     i, depth, body = m.end(), 1, []
     while i < len(src) and depth > 0:
         c = src[i]
-        if src.startswith("//", i):
-            j = src.find("\n", i)
-            i = len(src) if j < 0 else j
-            continue
-        if src.startswith("/*", i):
-            j = src.find("*/", i)
-            i = len(src) if j < 0 else j + 2
-            continue
         if c in "{([":
             depth += 1
         elif c in "})]":
             depth -= 1
         if depth >= 1:
-            body.append(c if depth == 1 else " ")
+            body.append(c if depth == 1 and c not in "{([" else " ")
         i += 1
-    text = "".join(body)
-    text = re.sub(r"#\s*$", "", text)
+    text = re.sub(r"#", " ", "".join(body))
     out = []
     for part in text.split(","):
-        part = re.sub(r"#", " ", part).strip()
-        mm = re.match(r"([A-Z][A-Za-z0-9_]*)", part)
+        mm = re.match(r"\s*([A-Z][A-Za-z0-9_]*)", part)
         if mm:
             out.append(mm.group(1))
+        elif part.strip():
+            return None          # something this reader does not understand: fail closed
     return out
 
 
